@@ -84,6 +84,15 @@ POLLER_CASES = [
     "ByNumResp:bynum-failed"]
 
 
+# the cases every seed reaches many times even in the quick tier (the full lists above are
+# required in the thorough tier, where thousands of behaviours are replayed)
+STORAGE_CORE = [c for c in STORAGE_CASES if c.split(":")[1] in (
+    "bootstrap", "extend", "replace-tip", "preserved", "delta", "nochange-classes", "misaligned", "base-tx-count",
+    "empty", "aligned", "drop-all", "rebuild", "")]
+POLLER_CORE = ["TickStart:aligned", "TickStart:rebuild", "LatestResp:backfill", "LatestResp:bootstrap",
+               "ByNumResp:bootstrap", "ByNumResp:extend"]
+
+
 def require_cases(res, prefix, cases):
     """vacuity guard of the binding: every case of the code's case analysis was replayed on the real code"""
     if res.get("divergences"):
@@ -206,7 +215,7 @@ def run(ctx):
                "newstate": [i % 2 == 1 for i in range(len(behaviours))]}
     res = ctx.run_engine(binary, "TestPreconfReplay", payload, timeout=2400)
     ctx.absorb(res, ENGINE, "TestPreconfReplay")
-    require_cases(res, "case ", STORAGE_CASES)
+    require_cases(res, "case ", STORAGE_CASES if thorough else STORAGE_CORE)
     ctx.coverage["behaviours_storage"] = len(behaviours)
     ctx.coverage["behaviours_storage_nontrivial"] = sum(1 for b in behaviours if interesting(b))
     ctx.coverage["steps_replayed_storage"] = res.get("steps", 0)
@@ -222,7 +231,7 @@ def run(ctx):
                "newstate": [i % 2 == 1 for i in range(len(pbehaviours))]}
     res = ctx.run_engine(binary, "TestPreconfPoller", payload, timeout=2400)
     ctx.absorb(res, ENGINE, "TestPreconfPoller")
-    require_cases(res, "poller case ", POLLER_CASES)
+    require_cases(res, "poller case ", POLLER_CASES if thorough else POLLER_CORE)
     ctx.coverage["behaviours_poller"] = len(pbehaviours)
     ctx.coverage["behaviours_poller_nontrivial"] = sum(1 for b in pbehaviours if interesting(b))
     ctx.coverage["steps_replayed_poller"] = res.get("steps", 0)
